@@ -933,7 +933,7 @@ func (u *Unmarshaler) processNamedFieldWithoutValue(fieldType reflect.Type, valu
 	if u.opts.fillDefault {
 		if fieldType.Kind() != reflect.Ptr && fieldKind == reflect.Struct {
 			return u.processFieldNotFromString(fieldType, value, valueWithParent{
-				value: emptyMap,
+				value: map[string]any{},
 			}, opts, fullName)
 		}
 		return nil
@@ -943,7 +943,7 @@ func (u *Unmarshaler) processNamedFieldWithoutValue(fieldType reflect.Type, valu
 	case reflect.Array, reflect.Map, reflect.Slice:
 		if !opts.optional() {
 			return u.processFieldNotFromString(fieldType, value, valueWithParent{
-				value: emptyMap,
+				value: map[string]any{},
 			}, opts, fullName)
 		}
 	case reflect.Struct:
@@ -958,7 +958,7 @@ func (u *Unmarshaler) processNamedFieldWithoutValue(fieldType reflect.Type, valu
 			}
 
 			return u.processFieldNotFromString(fieldType, value, valueWithParent{
-				value: emptyMap,
+				value: map[string]any{},
 			}, opts, fullName)
 		}
 	default:
